@@ -3,9 +3,10 @@
    KDWrapper (Wrap) layers over root datasets; resolve/slen/getall/util_getall/root/
    wrappers/dispose = the model of the code (Model.v); map_of/den_of = the
    compositional index map (Spec.v). *)
-From Coq Require Import ZArith List Bool.
+From Coq Require Import ZArith List Bool String.
 Import ListNotations.
-From KD Require Import C02.Model C02.Spec C02.Proofs.
+From KD Require Import C02.Model C02.Spec C02.Proofs C02.AttrModel C02.AttrSpec C02.AttrProofs.
+Local Notation length := List.length.
 Open Scope Z_scope.
 
 (* item k of the composed dataset is item map(k) of the underlying datasets; negative k
@@ -62,9 +63,10 @@ Proof. exact Proofs.to_concat_idx_negative. Qed.
 Print Assumptions to_concat_idx_negative.
 
 (* getall (fast path when offered, sample-wise slow path otherwise) returns the index map
-   and agrees element-wise with getitem, through any nesting without balanced concat *)
+   and agrees element-wise with getitem, through ANY nesting with a length -- also over
+   balanced concats (which offer no getall_*, so utils.getall goes sample by sample) *)
 Theorem getall_eq_map_getitem : forall s,
-  valid s = true -> no_balanced s = true -> lists_ok s = true ->
+  valid s = true -> is_fin (den_of s) = true -> lists_ok s = true ->
   exists b, util_getall s = GOk b (map_of s)
     /\ (has_getall s = true -> getall s = GOk b (map_of s))
     /\ slen s = Some (zlen (map_of s))
@@ -72,19 +74,24 @@ Theorem getall_eq_map_getitem : forall s,
 Proof. exact Proofs.getall_eq_map_getitem. Qed.
 Print Assumptions getall_eq_map_getitem.
 
-(* the slow path alone is right even below balanced concats *)
+(* the slow path alone is right whatever is below *)
 Theorem util_getall_slow : forall s,
   valid s = true -> is_fin (den_of s) = true -> has_getall s = false ->
   util_getall s = GOk true (map_of s).
 Proof. exact Proofs.util_getall_slow. Qed.
 Print Assumptions util_getall_slow.
 
-(* the fast path below a balanced concat is NOT the map (recorded finding) *)
-Theorem getall_balanced_refuted :
-  exists s, valid s = true /\ has_getall s = true /\ lists_ok s = true /\
-            getall s <> GOk true (map_of s).
-Proof. exact Proofs.getall_balanced_refuted. Qed.
-Print Assumptions getall_balanced_refuted.
+(* getall_x is offered (hasattr) only by stacks without a balanced concat anywhere below ... *)
+Theorem getall_offered_only_without_balanced : forall s, has_getall s = true -> no_balanced s = true.
+Proof. exact Proofs.has_getall_no_balanced. Qed.
+Print Assumptions getall_offered_only_without_balanced.
+
+(* ... and wherever it is offered, the direct call <stack>.getall_x() is the index map *)
+Theorem getall_offered_is_map : forall s,
+  valid s = true -> lists_ok s = true -> has_getall s = true ->
+  getall s = GOk (yields_list s) (map_of s) /\ is_fin (den_of s) = true.
+Proof. exact Proofs.getall_offered_is_map. Qed.
+Print Assumptions getall_offered_is_map.
 
 (* introspection through every linear chain of layers *)
 Theorem root_of_linear_chain : forall ls id n pk, root (build ls (Root id n pk)) = id.
@@ -137,3 +144,136 @@ Example nonvacuous_balanced :
   valid s = true /\ map (resolve s) [0; 1; 2; 3; 4; 5] =
                     [Some (0, 0); Some (1, 0); Some (0, 1); Some (1, 1); Some (0, 0); Some (1, 2)].
 Proof. vm_compute. split; reflexivity. Qed.
+
+(* the formerly recorded finding as a regression example: KDSubset over a balanced concat *)
+Example balanced_getall_regression :
+  let s := balanced_witness in
+  valid s = true /\ is_fin (den_of s) = true /\ lists_ok s = true /\ has_getall s = false /\ getall s = GMissing
+  /\ map_of s = [(0, 0); (1, 0); (0, 1); (1, 1)] /\ util_getall s = GOk true (map_of s).
+Proof. vm_compute. repeat split; reflexivity. Qed.
+
+(* ---------------------------------------------------------------------------------------------- *)
+(* attribute lookup and introspection (AttrModel.v): every node has an environment of class-level  *)
+(* and instance-level definitions; abuild ls r = the linear chain of layers ls (outermost first;   *)
+(* KDSubset / KDWrapper / ModeWrapper) over the root dataset r                                     *)
+(* ---------------------------------------------------------------------------------------------- *)
+(* getattr(chain, name) is answered by the NEAREST provider: the first node, from the outside, on which
+   Python's normal lookup finds the name (property before instance dict before method / class attribute;
+   a property raising AttributeError does not count); AttributeError when no node defines it.
+   For every name no layer intercepts (not getdim_* / getitem_* / getall_* / __getitems__). *)
+Theorem attr_resolves_to_nearest_provider : forall ls r name, plain_name name = true ->
+  aquery (abuild ls r) name = nearest (nodes_of ls r) name.
+Proof. exact attr_nearest. Qed.
+Print Assumptions attr_resolves_to_nearest_provider.
+
+Theorem nearest_is_first_definer : forall ns name x,
+  nearest ns name = x -> x <> AMissing ->
+  exists i n, nth_error ns i = Some n /\ own n name = Some x /\
+              forall j m, (j < i)%nat -> nth_error ns j = Some m -> own m name = None.
+Proof. exact nearest_first. Qed.
+Print Assumptions nearest_is_first_definer.
+
+(* getdim_<kind>() (no layer defines that name itself) is shape[0] of getshape_<kind> as seen from the first
+   KDDataset-family layer of the chain: KDSubset and ModeWrapper pass the alias request on, the first KDWrapper (or the
+   root) answers it with ITS getshape_<kind>; AssertionError when there is none or it is not a 1-tuple *)
+Theorem getdim_resolves_from_first_dataset_layer : forall ls r name,
+  is_getdim name = true -> Forall (fun n => own n name = None) (nodes_of ls r) ->
+  aquery (abuild ls r) name = shape1 (nearest (nodes_of (skip_to_kd ls) r) ("getshape_" ++ dim_kind name)).
+Proof. exact getdim_chain. Qed.
+Print Assumptions getdim_resolves_from_first_dataset_layer.
+
+(* hence getdim_<kind>() = getshape_<kind>()[0] through the whole chain, provided no KDSubset / ModeWrapper above the
+   first KDWrapper defines getshape_<kind> itself (no kappadata class does) *)
+Theorem getdim_is_getshape0 : forall ls r name,
+  is_getdim name = true -> Forall (fun n => own n name = None) (nodes_of ls r) ->
+  (forall l, In l ls -> is_kd l = false -> own (snd l) ("getshape_" ++ dim_kind name) = None) ->
+  aquery (abuild ls r) name = shape1 (aquery (abuild ls r) ("getshape_" ++ dim_kind name)).
+Proof. exact AttrProofs.getdim_is_getshape0. Qed.
+Print Assumptions getdim_is_getshape0.
+
+(* a concat answers every name it does not define or intercept with its first part *)
+Theorem attr_concat_first_part : forall n p ps name,
+  own n name = None -> is_getitem name = false -> is_getall name = false ->
+  aquery (ACat n (p :: ps)) name = aquery p name.
+Proof. exact AttrProofs.attr_concat_first_part. Qed.
+Print Assumptions attr_concat_first_part.
+
+(* fused_operations of a chain: the root's groups, then what each KDWrapper appends, innermost first *)
+Theorem fused_operations_linear_chain : forall ls r, no_mode ls ->
+  afused (abuild ls r) = Some (bo_fo (n_bo r) ++ flat_map wrap_fo (rev ls)).
+Proof. exact afused_chain. Qed.
+Print Assumptions fused_operations_linear_chain.
+
+Theorem requires_propagate_ctx_linear_chain : forall ls r, no_mode ls ->
+  areq (abuild ls r) = Some (existsb (fun l => is_kd l && bo_req (n_bo (snd l))) ls || bo_req (n_bo r)).
+Proof. exact areq_chain. Qed.
+Print Assumptions requires_propagate_ctx_linear_chain.
+
+Theorem collators_linear_chain : forall ls r, acoll (abuild ls r) = bo_coll (n_bo r).
+Proof. exact acoll_chain. Qed.
+Print Assumptions collators_linear_chain.
+
+Theorem root_wrappers_linear_chain : forall ls r,
+  aroot (abuild ls r) = n_uid r /\ awrappers (abuild ls r) = map (fun l => n_uid (snd l)) ls.
+Proof. intros ls r. split; [exact (aroot_chain ls r) | exact (awrappers_chain ls r)]. Qed.
+Print Assumptions root_wrappers_linear_chain.
+
+Theorem has_wrapper_linear_chain : forall w ls r,
+  ahas_wrapper w (abuild ls r) = existsb (fun l => n_uid (snd l) =? w) ls.
+Proof. exact ahas_wrapper_chain. Qed.
+Print Assumptions has_wrapper_linear_chain.
+
+(* dispose() / leaving a with-block reaches the root through every chain, a ModeWrapper on top included *)
+Theorem dispose_linear_chain_any_layer : forall ls r, adispose (abuild ls r) = [n_uid r].
+Proof. exact adispose_chain. Qed.
+Print Assumptions dispose_linear_chain_any_layer.
+
+Theorem worker_init_linear_chain : forall ls r,
+  awreach (abuild ls r) = map (fun l => n_uid (snd l)) (filter is_kd ls) ++ [n_uid r].
+Proof. exact awreach_chain. Qed.
+Print Assumptions worker_init_linear_chain.
+
+Theorem every_attr_chain_is_built : forall s ls r, aunbuild s = Some (ls, r) -> abuild ls r = s.
+Proof. exact abuild_aunbuild. Qed.
+Print Assumptions every_attr_chain_is_built.
+
+(* any nesting (concats included): dispose reaches every root, worker_init_fn every KDWrapper and every root, each
+   exactly once and in pre-order *)
+Theorem dispose_reaches_every_root : forall s, adispose s = uids_of_kind (Nat.eqb 0) s.
+Proof. exact adispose_roots. Qed.
+Print Assumptions dispose_reaches_every_root.
+
+Theorem worker_init_reaches_every_wrapper_and_root : forall s,
+  awreach s = uids_of_kind (fun k => Nat.eqb k 0 || Nat.eqb k 1) s.
+Proof. exact awreach_nodes. Qed.
+Print Assumptions worker_init_reaches_every_wrapper_and_root.
+
+(* get_wrapper_of_type: None for no layer of the type, the layer for exactly one, AssertionError otherwise *)
+Theorem get_wrapper_of_type_unique : forall ws,
+  (wrapper_of_type ws = inl None <-> ws = []) /\
+  (forall p, wrapper_of_type ws = inl (Some p) <-> ws = [p]) /\
+  (wrapper_of_type ws = inr tt <-> (2 <= List.length ws)%nat).
+Proof. exact wrapper_of_type_spec. Qed.
+Print Assumptions get_wrapper_of_type_unique.
+
+(* non-vacuity: a ModeWrapper over a KDSubset (defining getshape_x itself and a property that raises) over a KDWrapper
+   (shadowing "alpha" at class and instance level) over a root *)
+Definition ex_bo := {| bo_fo := []; bo_req := false; bo_coll := [] |}.
+Definition ex_chain : list alayer :=
+  [(LKMode, {| n_uid := 0; n_cls := []; n_inst := []; n_bo := ex_bo |});
+   (LKSub, {| n_uid := 1; n_cls := [("beta"%string, KPropRaise); ("getshape_y"%string, KMethod)]; n_inst := []; n_bo := ex_bo |});
+   (LKWrap, {| n_uid := 2; n_cls := [("alpha"%string, KMethod)]; n_inst := ["alpha"%string];
+               n_bo := {| bo_fo := [7]; bo_req := true; bo_coll := [] |} |})].
+Definition ex_root : node :=
+  {| n_uid := 3; n_cls := [("alpha"%string, KProp); ("beta"%string, KCattr); ("getshape_x"%string, KMethod);
+                           ("getshape_y"%string, KShape2)];
+     n_inst := []; n_bo := {| bo_fo := [5]; bo_req := false; bo_coll := [11; 12] |} |}.
+Example nonvacuous_attr :
+  let s := abuild ex_chain ex_root in
+  map (aquery s) ["alpha"; "beta"; "gamma"; "getshape_y"; "getdim_x"; "getdim_y"; "getdim_z"]%string
+  = [AFound 2 3; AFound 3 2; AMissing; AFound 1 0; AFound 3 0; AAssert; AAssert]
+  /\ plain_name "alpha" = true /\ is_getdim "getdim_y" = true
+  /\ Forall (fun n => own n "getdim_y"%string = None) (nodes_of ex_chain ex_root)
+  /\ afused (abuild (tl ex_chain) ex_root) = Some [5; 7] /\ areq (abuild (tl ex_chain) ex_root) = Some true
+  /\ afused s = None /\ acoll s = [11; 12] /\ adispose s = [3] /\ awreach s = [2; 3] /\ actor_ok s = true.
+Proof. vm_compute. repeat split; try reflexivity; repeat constructor. Qed.
